@@ -50,12 +50,19 @@ def dtlz(args):
     from artap.individual import Individual
     cls = {1: BP.DTLZI, 2: BP.DTLZII, 3: BP.DTLZIII, 4: BP.DTLZIV}[fam]
     n = m + k - 1
-    try:        # another object of the same family with one more objective was used earlier in the same process
-        other = cls(**{'dimension': n + 1, 'm': m + 1})
-        other.evaluate(Individual([0.25] * (n + 1)))
-    except Exception:
-        pass
+    def other_object(c, dim, mm):
+        # state that survives between uses: other DTLZ objects (same m with another dimension, another m) are created and
+        # evaluated in the same process, before and after the object under test
+        try:
+            o = c(**{'dimension': dim, 'm': mm})
+            o.evaluate(Individual([0.25] * dim))
+            return o
+        except Exception:
+            return None
+    keep = [other_object(BP.DTLZI, m + (2 if k != 3 else 4) - 1, m), other_object(cls, n + 1, m + 1)]
     prob = cls(**{'dimension': n, 'm': m})
+    keep += [other_object(BP.DTLZI, m + (4 if k != 5 else 6) - 1, m)]
+    prob._symx_keep_alive = keep
 
     def body(ctx):
         ops.sym_pi()
